@@ -40,6 +40,9 @@ def rand_network(rng):
         if len(geom) > 2:
             geom[1:] = sorted(geom[1:], key=lambda p: (p[0] - pa[0]) ** 2 + (p[1] - pa[1]) ** 2)
         geom.append(pb)
+        if rng.random() < 0.15:                                         # a repeated vertex (zero-length segment), as after snapping a junction onto a vertex
+            k = rng.randrange(len(geom))
+            geom.insert(k, geom[k])
         edges.append({'s': '%d_%d' % a, 't': '%d_%d' % b, 'geom': [list(p) for p in geom], 'o': rng.choice([0, 0, 1, -1])})
     for i in range(nx):
         for j in range(ny):
